@@ -606,7 +606,11 @@ class ModelMixin:
             new = {}
             for fname, a in h.meta['arrs'].items():
                 x = items[fname]
-                if isinstance(a, tuple):
+                if isinstance(a, tuple) and a[0] == '$U':
+                    if not isinstance(x, Opaque):
+                        raise EngineError('record field expects an opaque value')
+                    new[fname] = ('$U', a[1], z3.Store(a[2], n, x.term))
+                elif isinstance(a, tuple):
                     if not (isinstance(x, BytesV) and x.base == a[0]):
                         raise EngineError('record bytes field of another base')
                     new[fname] = (a[0], z3.Store(a[1], n, to_int_term(x.lo)), z3.Store(a[2], n, to_int_term(x.hi)))
